@@ -243,7 +243,12 @@ def doc_block(style: str, desc: str, params: list[tuple[str, str, str]], result:
             for n, t, d in params:
                 lines.append(f"{n} : {t}" if t else n)
                 lines.append(f"    {d}")
-        if result:
+        if isinstance(result, list):
+            lines += ["", "Returns", "-------"]
+            for n, t, d in result:
+                # a name without a type is written "name :" (a bare word would be read as a type)
+                lines += [f"{n} : {t}" if t else f"{n} :", f"    {d}"]
+        elif result:
             lines += ["", "Returns", "-------", f"result_1 : {result[0]}" if result[0] else "result_1", f"    {result[1]}"]
     elif style == "google":
         if params:
@@ -277,7 +282,7 @@ def doc_block(style: str, desc: str, params: list[tuple[str, str, str]], result:
 class PkgGen:
     def __init__(self, rng: random.Random, *, kw_rate=0.05, style="plaintext", docs=0.5, reexports=True,
                  test_dirs=False, private_rate=0.2, infer_returns=0.15, n_modules=(2, 4), root_name="pkg",
-                 cross_refs=True, doc_types="none", unique_top_names=True, ties=0.0):
+                 cross_refs=True, doc_types="none", unique_top_names=True, ties=0.0, aliases=0.0, chains=0.0):
         self.r = rng
         self.names = Names(rng, kw_rate)
         self.style = style
@@ -296,6 +301,11 @@ class PkgGen:
         # rate of constructs whose treatment depends on the iteration order of a Python set inside the tool
         # (a nested class named like a top-level class of its module that is then used as a base class or type)
         self.ties = ties
+        # rate of modules that define type aliases (a plain one and a recursive one) and use them in annotations
+        self.aliases = aliases
+        # rate of modules with a private inheritance chain shared by two public classes, one of which overrides a
+        # method of the farther private ancestor (skipping the nearer one)
+        self.chains = chains
         self.global_used: set = set()
         self.counter = 0
 
@@ -386,6 +396,20 @@ class PkgGen:
                 f["result_doc_type"] = self.doc_type_for(f["ret"])
                 if f["result_doc_type"] is not None or self.style != "numpydoc":
                     f["result_doc"] = self.marker(f"result of {name}")
+            # numpydoc: one named Returns entry per component of a tuple result; an entry's type is the hint's, another
+            # type, free text that is no Python type, or missing
+            if (self.style == "numpydoc" and self.doc_types != "none" and f["ret"] is not None and f["ret"][0] == "tuple"
+                    and (len(name) + len(ps)) % 2 == 0):
+                simple = [("int",), ("str",), ("bool",), ("float",), ("list", ("int",))]
+                entries = []
+                for i, comp in enumerate(f["ret"][1:]):
+                    kind = ["same", "diff", "text", "none", "diff"][(len(name) + 2 * i + len(ps)) % 5]
+                    if kind == "same" and ann_src(comp) not in [ann_src(x) for x in simple]:
+                        kind = "diff"       # only types the docstring converter knows are written into docstrings
+                    t = comp if kind == "same" else simple[(len(name) + i) % len(simple)] if kind == "diff" else None
+                    entries.append({"name": ["first", "second", "third", "fourth"][i % 4], "kind": kind, "type": t,
+                                    "text": "array-like of shape (n,)" if kind == "text" else None})
+                f["result_docs"] = entries
         return f
 
     def return_body(self):
@@ -495,6 +519,8 @@ class PkgGen:
             c["classes"].append(self.class_(ag, nn, f"{qname}.{nn}", [], depth_left - 1))
         c["extras"] = {"setters": r.random() < 0.5, "overload": r.random() < 0.15, "subscript": r.random() < 0.4,
                        "seq_base": r.random() < 0.1 and not c["bases"]}
+        # an overloaded static method: its implementation is itself decorated
+        c["extras"]["overload_static"] = c["extras"]["overload"] and len(name) % 2 == 0
         if r.random() < self.docs:
             c["doc"] = self.marker(f"class {name}")
         # documented attributes (numpydoc / google only: an "Attributes" section of the class docstring)
@@ -506,7 +532,10 @@ class PkgGen:
         r = self.r
         qn = ".".join(pkg_parts + [name])
         m = {"kind": "module", "name": name, "pkg": list(pkg_parts), "qname": qn, "classes": [], "functions": [],
-             "enums": [], "doc": self.marker(f"module {name}") if r.random() < self.docs * 0.6 else "", "imports": set()}
+             "enums": [], "doc": self.marker(f"module {name}") if r.random() < self.docs * 0.6 else "", "imports": set(),
+             "aliases": self.aliases > 0 and (len(name) * 7 + len(pkg_parts)) % 100 < self.aliases * 100,
+             # an overloaded function at module level (one implementation)
+             "overload_fn": (len(name) + 3 * len(pkg_parts)) % 4 == 0}
         used = self.global_used if self.unique_top_names else set()
         local = []
         for _ in range(r.choice([0, 1, 2, 3])):
@@ -516,6 +545,20 @@ class PkgGen:
             c = self.class_(ag, cn, f"{qn}.{cn}", bases, 1, shadow=local)
             m["classes"].append(c)
             local.append((cn, f"{qn}.{cn}"))
+        if self.chains > 0 and (len(name) * 5 + len(pkg_parts)) % 100 < self.chains * 100 and "_ZzFar" not in used:
+            used.update({"_ZzFar", "_ZzNear", "ZzKeeps", "ZzOverrides"})
+            mk = lambda n, ret: {"kind": "function", "name": n, "method_kind": "instance", "params": [], "ret": ret, "returns": None,
+                                 "doc": "", "result_doc": "", "is_property": False, "result_doc_type": None, "rest_type_first": True}
+            def cls(n, bases, methods):
+                return {"kind": "class", "name": n, "qname": f"{qn}.{n}", "bases": bases, "attrs": [], "init": None, "inst_attrs": [],
+                        "methods": methods, "classes": [], "doc": "", "extras": {}}
+            far = cls("_ZzFar", [], [mk("zz_size", ("int",)), mk("zz_far_only", ("str",))])
+            near = cls("_ZzNear", [("_ZzFar", f"{qn}._ZzFar")], [mk("zz_near", ("bool",))])
+            keeps = cls("ZzKeeps", [("_ZzNear", f"{qn}._ZzNear")], [mk("zz_own", ("int",))])
+            overrides = cls("ZzOverrides", [("_ZzNear", f"{qn}._ZzNear")], [mk("zz_size", ("float",))])
+            order = [far, near] + ([keeps, overrides] if len(name) % 2 else [overrides, keeps])
+            m["classes"] += order
+            local += [(c["name"], c["qname"]) for c in order]
         if r.random() < 0.25:
             en = self.names.pick(["Color", "Mode", "my_enum"], used, self.private_rate * 0.5)
             members = r.sample(["RED", "GREEN", "blue_value", "val_x"], r.choice([0, 1, 2, 3]))
@@ -563,7 +606,9 @@ class PkgGen:
                 if r.random() < 0.5:
                     cands = [m for m in modules if m["pkg"][:len(pk)] == list(pk)]
                     for m in r.sample(cands, min(len(cands), r.choice([1, 2]))):
-                        decls = [c["name"] for c in m["classes"]] + [f["name"] for f in m["functions"]]
+                        # a function named like its module is not re-exported by name: the tool would take the import
+                        # for a re-export of the module (known finding K10-module-name-suffix-match)
+                        decls = [c["name"] for c in m["classes"]] + [f["name"] for f in m["functions"] if f["name"] != m["name"]]
                         form = r.randrange(5)
                         if form <= 2 and decls:
                             d = r.choice(decls)
@@ -626,6 +671,8 @@ def func_src(f, indent: str, style: str, classes_in_scope=None) -> list[str]:
              for p in params if p["doc"] or p.get("doc_type")]
     rdt = f.get("result_doc_type")
     rdoc = (ann_src(rdt[0]) if rdt else "", f["result_doc"]) if f.get("result_doc") else None
+    if f.get("result_docs") and style == "numpydoc":
+        rdoc = [(e["name"], ann_src(e["type"]) if e["type"] is not None else (e["text"] or ""), "Desc.") for e in f["result_docs"]]
     if style == "plaintext":
         d = doc_block(style, f["doc"], [], None, indent + "    ")
     else:
@@ -681,6 +728,10 @@ def class_src(c, indent: str, style: str) -> list[str]:
         lines += [f"{inner}@overload", f"{inner}def ov_{c['name'].strip('_')}(self, v: int) -> int: ...",
                   f"{inner}@overload", f"{inner}def ov_{c['name'].strip('_')}(self, v: str) -> str: ...",
                   f"{inner}def ov_{c['name'].strip('_')}(self, v):", f"{inner}    return v", ""]
+        if ex.get("overload_static"):
+            lines += [f"{inner}@overload", f"{inner}@staticmethod", f"{inner}def ovs_{c['name'].strip('_')}(v: int) -> int: ...",
+                      f"{inner}@overload", f"{inner}@staticmethod", f"{inner}def ovs_{c['name'].strip('_')}(v: str) -> str: ...",
+                      f"{inner}@staticmethod", f"{inner}def ovs_{c['name'].strip('_')}(v):", f"{inner}    return v", ""]
         body = True
     for k in c["classes"]:
         lines += class_src(k, inner, style)
@@ -731,6 +782,9 @@ def module_src(m, style: str) -> str:
             parts = q.split(".")
             lines.append(f"from {mod} import {top}")
     lines.append("")
+    if m.get("aliases"):
+        lines += ['ZzJson = Union[None, bool, int, float, str, list["ZzJson"], dict[str, "ZzJson"]]', "ZzVec = list[float]", "",
+                  "def zz_alias_user(data: ZzJson, v: ZzVec) -> ZzJson:", "    ...", ""]
     for e in m["enums"]:
         lines.append(f"class {e['name']}(Enum):")
         if e["doc"]:
@@ -745,6 +799,9 @@ def module_src(m, style: str) -> str:
     for c in m["classes"]:
         lines += class_src(c, "", style)
         lines.append("")
+    if m.get("overload_fn"):
+        lines += ["@overload", "def zz_overloaded(v: int) -> int: ...", "@overload", "def zz_overloaded(v: str) -> str: ...",
+                  "def zz_overloaded(v):", "    return v", ""]
     for f in m["functions"]:
         lines += func_src(f, "", style)
         lines.append("")
